@@ -41,12 +41,81 @@ func refMatchFrom(s string, j int, c byte) int {
 	return -1
 }
 
+// refTokenFrom finds the first position p >= j at which sub occurs in s as a whole
+// white-space/comma delimited token (the byte before it, if any, is white space or a
+// comma, and so is the byte after it) and returns the position just after it, or -1.
+// commaBefore / commaAfter demand that the token is glued to a comma on that side (the
+// comma the sanitizer rewrote as "%2c").
+func refTokenFrom(s string, j int, sub string, commaBefore, commaAfter bool) int {
+	res := -1
+	for p := len(s) - len(sub); p >= 0; p-- {
+		ok := p >= j
+		for k := 0; k < len(sub); k++ {
+			if s[p+k] != sub[k] {
+				ok = false
+			}
+		}
+		if p > 0 {
+			if !refWS(s[p-1]) && s[p-1] != ',' {
+				ok = false
+			}
+			if commaBefore && s[p-1] != ',' {
+				ok = false
+			}
+		} else if commaBefore {
+			ok = false
+		}
+		if e := p + len(sub); e < len(s) {
+			if !refWS(s[e]) && s[e] != ',' {
+				ok = false
+			}
+			if commaAfter && s[e] != ',' {
+				ok = false
+			}
+		} else if commaAfter {
+			ok = false
+		}
+		if ok {
+			res = p + len(sub)
+		}
+	}
+	return res
+}
+
 func vHarness_C12_sanitized() {
 	n := vParam("n")
 	s := vNondetString("s", n)
 	if vParam("ascii") == 1 {
 		vASCII(s)
 	}
+	c12Oracle(s)
+}
+
+// three candidates with concrete separators and symbolic contents:
+//
+//	U1 " ," U2 " " D2 "," U3 [" " D3]
+//
+// (an accepted, a dropped and another accepted candidate in one input need more bytes
+// than the unstructured harness reaches)
+func vHarness_C12_three() {
+	u1 := vNondetString("u1", vParam("n1"))
+	u2 := vNondetString("u2", vParam("n2"))
+	d2 := vNondetString("d2", vParam("m2"))
+	u3 := vNondetString("u3", vParam("n3"))
+	d3 := vNondetString("d3", vParam("m3"))
+	vASCII(u1)
+	vASCII(u2)
+	vASCII(d2)
+	vASCII(u3)
+	vASCII(d3)
+	s := u1 + " ," + u2 + " " + d2 + "," + u3
+	if len(d3) > 0 {
+		s += " " + d3
+	}
+	c12Oracle(s)
+}
+
+func c12Oracle(s string) {
 	out := URLSetSanitized(s).String()
 	vAssert(len(out) > 0, "the result is never empty")
 	if out == InnocuousURL {
@@ -120,11 +189,40 @@ func vHarness_C12_sanitized() {
 			if end-k >= 3 && url[end-3] == '%' && url[end-2] == '2' && url[end-1] == 'c' {
 				end -= 3
 			}
-			for ; k < end && j >= 0; k++ {
-				j = refMatchFrom(s, j, url[k])
+			// the URL - as written, or with an edge "%2c" read back as the comma it replaced - and
+			// the descriptor are whole tokens of s, in order
+			if j >= 0 {
+				best := refTokenFrom(s, j, url, false, false)
+				for v := 1; v < 4; v++ {
+					kk, ee := 0, len(url)
+					if v&1 != 0 {
+						kk = k
+					}
+					if v&2 != 0 {
+						ee = end
+					}
+					if (v&1 != 0 && k == 0) || (v&2 != 0 && end == len(url)) || ee < kk {
+						continue
+					}
+					// an empty core: the URL was only commas
+					var r int
+					if ee == kk {
+						commas := ","
+						if v == 3 {
+							commas = ",,"
+						}
+						r = refTokenFrom(s, j, commas, false, false)
+					} else {
+						r = refTokenFrom(s, j, url[kk:ee], v&1 != 0, v&2 != 0)
+					}
+					if r >= 0 && (best < 0 || r < best) {
+						best = r
+					}
+				}
+				j = best
 			}
-			for k = 0; k < len(desc) && j >= 0; k++ {
-				j = refMatchFrom(s, j, desc[k])
+			if j >= 0 && len(desc) > 0 {
+				j = refTokenFrom(s, j, desc, false, false)
 			}
 			vAssert(j >= 0, "surviving URLs and descriptors are copied, in order, from the input")
 		}
